@@ -109,6 +109,8 @@ class Printer:
             return node[1]
         if op == "pi":
             return "PI"
+        if op == "floor":
+            return "(IZR (Zfloor %s))" % self.ref(node[1])
         if op in _UN:
             return "(%s%s)" % (_UN[op], self.ref(node[1]))
         if op in _BIN_INFIX:
@@ -183,6 +185,7 @@ def prop_definition(g, name, inputs, conds, known=None):
 
 HEADER = """(* GENERATED by /verif/translator from /repo — do not edit.  Regenerated on every check. *)
 From Coq Require Import Reals.
+From Flocq Require Import Core.
 From PyOrb.lib Require Import PyReal.
 Open Scope R_scope.
 """
